@@ -22,13 +22,14 @@ import (
 var projFiles = []string{"main", "a", "b", "c", "t"}
 
 type projCase struct {
-	Req      map[string][]string                     `json:"req"`
-	Shared   bool                                    `json:"shared"`
-	Repeated bool                                    `json:"repeated"`
-	Order    []string                                `json:"order"`
-	Saw      map[string][]string                     `json:"saw"`
-	AsBuilt  map[string]map[string]map[string]string `json:"asbuilt"`
-	Incl     []string                                `json:"incl"`
+	Req       map[string][]string                     `json:"req"`
+	Shared    bool                                    `json:"shared"`
+	Repeated  bool                                    `json:"repeated"`
+	Order     []string                                `json:"order"`
+	Saw       map[string][]string                     `json:"saw"`
+	AsBuilt   map[string]map[string]map[string]string `json:"asbuilt"`
+	AsBuiltFn map[string]map[string]map[string]string `json:"asbuiltfn"`
+	Incl      []string                                `json:"incl"`
 }
 
 func (tc *projCase) inIncl(f string) bool {
@@ -47,6 +48,9 @@ func (tc *projCase) status(t *projTok, asBuilt bool) string {
 		return "ok"
 	}
 	k := strings.TrimSuffix(t.sym[:strings.LastIndex(t.sym, "_")], "2")
+	if t.infn {
+		return tc.AsBuiltFn[t.file][symFile(t.sym)][k]
+	}
 	return tc.AsBuilt[t.file][symFile(t.sym)][k]
 }
 
@@ -71,6 +75,7 @@ type projTok struct {
 	sym       string // symbol key: "g_a", "h_b", "fn_c", "f_a" (member field), "m_a" (member function)
 	def       bool
 	member    bool
+	infn      bool // a read inside a function body
 }
 
 type projRender struct {
@@ -139,6 +144,19 @@ func projRenderWS(tc *projCase) *projRender {
 				}
 			}
 			emit(s+")", toks...)
+		}
+		// the same reads inside a function body
+		for _, pre := range []string{"g_", "h_", "fn_"} {
+			s := "local function rd_" + strings.TrimSuffix(pre, "_") + "() return "
+			var toks []projTok
+			for k, g := range projFiles {
+				if k > 0 {
+					s += ", "
+				}
+				toks = append(toks, projTok{col: len(s), name: pre + g, sym: pre + g, infn: true})
+				s += pre + g
+			}
+			emit(s+" end", toks...)
 		}
 		// reads of the members of every required module
 		for i, g := range tc.Req[f] {
@@ -552,7 +570,7 @@ func projectRuns(c *Ctx, p *pool.Pool, maxReq int, kinds string) bool {
 	}
 	var raws []json.RawMessage
 	st, err := c.TLC(tlc.Run{Module: "Project", Workers: 2, Timeout: 10 * time.Minute,
-		Cfg: fmt.Sprintf("CONSTANTS\n  MaxReq = %d\nINIT Init\nNEXT Next\nINVARIANTS TypeOK EntryMember SawSelf EntrySeesAll SawSound PlainSeesMore OrderIsMembers NoMutualSight EntryResolvesAll GNeverUnknown Emit\nCHECK_DEADLOCK FALSE\n", maxReq)}, func(j json.RawMessage) {
+		Cfg: fmt.Sprintf("CONSTANTS\n  MaxReq = %d\nINIT Init\nNEXT Next\nINVARIANTS TypeOK EntryMember FnNeverCycle SawSelf EntrySeesAll SawSound PlainSeesMore OrderIsMembers NoMutualSight EntryResolvesAll GNeverUnknown Emit\nCHECK_DEADLOCK FALSE\n", maxReq)}, func(j json.RawMessage) {
 		raws = append(raws, append(json.RawMessage{}, j...))
 	})
 	if err != nil || st.ExitCode != 0 {
